@@ -185,9 +185,49 @@ fn enumerate(ctx: &Ctx, rep: &mut Report, max: usize) {
     rep.exhaustive.push(format!("key sequences: all sequences of length <= {max} over the 17-key alphabet, from an empty and from a 3-entry history, each also followed by the probe 'Q' Enter"));
 }
 
+/// Characters of the classes the word motions distinguish, beyond ASCII: white space (no-break,
+/// em, ideographic, Ogham, line separator), letters and digits (Arabic-Indic digit, full-width
+/// letter, Roman numeral, superscript), marks and format characters.
+pub const CLASS_CHARS: [char; 13] = ['\u{a0}', '\u{2003}', '\u{3000}', '\u{1680}', '\u{2028}', '٣', 'Ａ', 'Ⅷ', '²', '\u{200b}', '\u{301}', '\u{feff}', '·'];
+
+/// Short sequences over a second alphabet: two non-ASCII blanks, a non-ASCII digit, punctuation, a
+/// letter, a plain blank and the motion / deletion keys.
+fn enumerate_classes(ctx: &Ctx, rep: &mut Report, max: usize) {
+    let keys2 = [K::Ch('\u{a0}'), K::Ch('\u{3000}'), K::Ch('٣'), K::Ch('+'), K::Ch('a'), K::Ch(' '), K::CLeft, K::CRight, K::Left, K::Bs, K::Del];
+    let mut n = 0u64;
+    for len in 1..=max {
+        let total = keys2.len().pow(len as u32);
+        for code in 0..total {
+            n += 1;
+            if !ctx.mine(n) {
+                continue;
+            }
+            let mut c = code;
+            let mut keys = Vec::new();
+            for _ in 0..len {
+                keys.push(keys2[c % keys2.len()]);
+                c /= keys2.len();
+            }
+            let case = Case { history: vec![], keys };
+            judge_one(ctx, rep, &case, &mut |c| {
+                let mut o = judge_case(c);
+                o.label("enumerated-character-classes");
+                o
+            });
+            if n % 4096 == 0 {
+                lacebox::trim_streams();
+            }
+        }
+    }
+    rep.exhaustive.push(format!("key sequences: all sequences of length <= {max} over {{U+00A0, U+3000, Arabic-Indic 3, +, a, space, Ctrl+Left, Ctrl+Right, Left, Backspace, Delete}}"));
+}
+
 fn random_cases() -> impl Strategy<Value = Case> {
-    let key = prop_oneof![
+    let key = crate::pick![
         10 => prop::sample::select(KEYS.to_vec()),
+        2 => prop::sample::select(CLASS_CHARS.to_vec()).prop_map(K::Ch),
+        // (C1 control characters are neither printable nor keys: what the editor does with them is not specified)
+        1 => any::<char>().prop_map(|c| K::Ch(if ('\u{80}'..='\u{9f}').contains(&c) { '·' } else { c })),
         2 => prop::sample::select(vec![K::Ch('ß'), K::Ch('日'), K::Ch('\u{301}'), K::Ch('.'), K::Ch('_'), K::Ch('\t'), K::Ch('\u{7f}'), K::Ch('\u{1b}'), K::Ch('"')]),
         3 => prop::sample::select(vec![K::CLeft, K::CRight, K::Up, K::Down, K::Bs, K::Del]),
     ];
@@ -200,7 +240,7 @@ impl Prop for C20 {
         "C20"
     }
     fn rule(&self) -> &'static str {
-        "ALL key sequences of length <= 4 (quick) / <= 5 (thorough) over {a, Z, 7, space, +, ;, é (2 bytes), 😀 (4 bytes), Backspace, Delete, Left, Right, Ctrl+Left, Ctrl+Right, Up, Down, Enter}, from an empty history and from a 3-entry history (ASCII, multi-byte, punctuation), each run twice: followed by Enter, and followed by the probe 'Q' Enter (which makes the cursor position visible in the submitted text); plus random sequences of 5-59 keys (more characters, control characters, generated histories). \
+        "ALL key sequences of length <= 4 (quick) / <= 5 (thorough) over {a, Z, 7, space, +, ;, é (2 bytes), 😀 (4 bytes), Backspace, Delete, Left, Right, Ctrl+Left, Ctrl+Right, Up, Down, Enter}, from an empty history and from a 3-entry history (ASCII, multi-byte, punctuation), each run twice: followed by Enter, and followed by the probe 'Q' Enter (which makes the cursor position visible in the submitted text); plus ALL sequences of length <= 4 / <= 5 over {U+00A0, U+3000, Arabic-Indic digit, +, a, space, Ctrl+Left, Ctrl+Right, Left, Backspace, Delete}; plus random sequences of 5-59 keys (more characters: non-ASCII white space, digits, letters, marks and format characters, arbitrary code points, control characters; generated histories). \
          Oracle RefEdit (Vec<char> line, cursor in characters, Vim w/b word motions in characters, history list and index): after every key no panic and 0 <= cursor <= characters of the edited line; whenever Enter submits, the submitted text equals the reference editor's, and blank lines are not submitted; multi-line sessions continue through the history push. \
          Non-trivial: the line holds a multi-byte character while a motion or deletion key is pressed, or a history entry is edited. Distinct = hash(history, keys)."
     }
@@ -218,12 +258,16 @@ impl Prop for C20 {
     }
     fn run_worker(&self, ctx: &Ctx, rep: &mut Report) {
         enumerate(ctx, rep, ctx.tier.pick(4, 5));
+        enumerate_classes(ctx, rep, ctx.tier.pick(4, 5));
         let n = ctx.share(ctx.tier.pick(30_000, 400_000));
         drive(ctx, rep, "random-keys", random_cases(), n, &mut |c: &Case| {
             let mut o = judge_case(c);
             o.label("random");
             o
         });
+    }
+    fn fuzz_strategy(&self) -> Option<BoxedStrategy<Value>> {
+        Some(crate::fuzzmode::jv(random_cases()))
     }
     fn replay(&self, _ctx: &Ctx, case: &Value) -> Obs {
         match serde_json::from_value::<Case>(case.clone()) {
